@@ -273,28 +273,35 @@ Section LadderP.
     cbn [negb andb]. rewrite andb_false_r. cbn [andb]. destruct (snd c); reflexivity.
   Qed.
 
-  (* C02: approved through a handler => every reported write target is a safe sink or granted *)
+  (* C02: approved through a handler => every reported write target is a safe sink or granted - and a granted
+     target is a literal name: no character bash or the tool still rewrites *)
+  Lemma written_rule_allow m t : written_rule m t = Some Allow <-> m = Some Allow /\ has_rewritten t = false.
+  Proof.
+    unfold written_rule. destruct m as [[| |]|]; [|split; [discriminate|intros [? _]; discriminate]..].
+    destruct (has_rewritten t); split; try discriminate; try (intros [_ ?]; discriminate); auto.
+  Qed.
+
   Lemma targets_none cwd ts : targets_verdict mredir cwd ts = None ->
-    forall t, In t ts -> In t SAFE_REDIRECT_TARGETS \/ mredir cwd t = Some Allow.
+    forall t, In t ts -> In t SAFE_REDIRECT_TARGETS \/ (mredir cwd t = Some Allow /\ has_rewritten t = false).
   Proof.
     induction ts as [|x ts IH]; [intros _ t []|]. cbn [targets_verdict].
     destruct (mem_str x SAFE_REDIRECT_TARGETS) eqn:E.
     - intros H t [<-|Ht]; [left; apply mem_str_In, E|exact (IH H t Ht)].
-    - destruct (mredir cwd x) as [[| |]|] eqn:Em; try discriminate.
-      intros H t [<-|Ht]; [right; exact Em|exact (IH H t Ht)].
+    - destruct (written_rule (mredir cwd x) x) as [[| |]|] eqn:Em; try discriminate.
+      intros H t [<-|Ht]; [right; apply written_rule_allow, Em|exact (IH H t Ht)].
   Qed.
 
   Lemma handler_targets_granted c words t tk r :
     skip_assignments words = t :: tk -> reaches_handler c (t :: tk) r ->
     snd c = false -> is_help (t :: tk) = false ->
     ladder c words = Allow ->
-    forall x, In x (h_targets r) -> In x SAFE_REDIRECT_TARGETS \/ mredir (fst c) x = Some Allow.
+    forall x, In x (h_targets r) -> In x SAFE_REDIRECT_TARGETS \/ (mredir (fst c) x = Some Allow /\ has_rewritten x = false).
   Proof.
     intros Hs Hr Hrem Hhelp H. rewrite (handler_decides c words t tk r Hs Hr), Hhelp, Hrem in H. cbn [andb] in H.
     destruct (targets_verdict mredir (fst c) (h_targets r)) as [v|] eqn:Et.
     - subst v. clear -Et. exfalso. revert Et. induction (h_targets r) as [|x ts IH]; [discriminate|].
       cbn [targets_verdict]. destruct (mem_str x SAFE_REDIRECT_TARGETS); [exact IH|].
-      destruct (mredir (fst c) x) as [[| |]|]; try discriminate. exact IH.
+      destruct (written_rule (mredir (fst c) x) x) as [[| |]|]; try discriminate. exact IH.
     - intros x Hx. exact (targets_none (fst c) _ Et x Hx).
   Qed.
 End LadderP.
